@@ -534,7 +534,9 @@ def gen_cascade(sc, mac):
             o.append("LEMMA(%s)\n{\n  ND_Z(Z); ND_ENERGY(E);" % name)
             for p in params:
                 o.append("  ND_FINITE(P%s);" % p)
-            o.append("  ND_ERRSLOT(error);\n  double r, e;\n  GHOST_RESET();")
+            o.append("  ND_ERRSLOT(error);\n  double r, e;")
+            o.append("  VASSUME(Z_OK(Z));   /* precondition of these internal helpers: every caller validates Z first (layer 3) */")
+            o.append("  GHOST_RESET();")
             o.append("  r = %s(%s, error);" % (fn, ", ".join(["Z", "E"] + ["P" + p for p in params])))
             o.append("  if (!LEAFOK_CS_Photo_Partial(Z, %s_SHELL, E)) {" % t)
             o.append('    VASSERT(FAILS(r, error), "%s: the shell\'s own photo-ionisation undefined (e.g. below the edge) fails with one error");' % fn)
